@@ -2,198 +2,321 @@
   C19 — Stream wrappers close their resource exactly once.
 
   Property theorems only; helper lemmas are in SA.Proofs.Wrappers.
-  Quantifiers: every composition `d` built by the real constructor functions
-  (any nesting depth), resources that succeed or fail on close and that do or do
-  not implement `Closed()`, every sequence of Read/Write/Close/Closed/String
-  calls on the outermost wrapper.  Side conditions (stated in DESIGN.md):
-  sequential calls; the resources under a composition are distinct objects.
+  Quantifiers: every composition `d` built by the real constructor functions (any nesting depth,
+  wrapper at the root), resources that succeed or fail on close and that do or do not implement
+  `Closed()`, every sequence of Read/Write/Close/Closed/String calls addressed to *any* wrapper
+  handle of the composition — every object returned by one of the constructor calls, the outermost
+  one (handle 0) and the inner ones the caller still holds (`validOps`: the handle exists and is
+  not a bare resource).  `hpath d h` is the place of handle `h`'s object in the runtime tree; with
+  the constructors' reuse rule several handles can denote one object.
+  Side conditions: sequential calls; the resources under a composition are distinct objects and are
+  not closed behind the wrappers' back.
+
+  The model functions `run`, `closeAt`, `closedAt` are the `…G` functions at the regenerated fact
+  `SA.Gen.c19PairClosedAnd` (connective of `ReadWriteCloser.Closed()`); the proofs below are for
+  `true` and are accepted for the fact by unfolding it, so they stop checking if the fact changes.
 -/
 import SA.Proofs.Wrappers
 namespace SA.Wrappers
 
-/-- state invariant for every reachable state: still untouched, or completely closed -/
-def Inv (w : W) : Prop := Guarded w ∧ (Fresh w ∨ Done w)
+/-! ### from handle-addressed to path-addressed runs -/
 
-theorem step_inv {w : W} (h : Inv w) (op : Op) : Inv (step w op).1 := by
-  cases op with
-  | close =>
-    rcases h with ⟨hg, hf | hd⟩
-    · exact ⟨close_guarded hg, Or.inr (fresh_close_done hg hf)⟩
-    · simp only [step, done_close hg hd]; exact ⟨hg, Or.inr hd⟩
-  | closed => exact h
-  | read => exact h
-  | write => exact h
-  | str => exact h
+theorem hpath_of_get {d : Desc} {h : Nat} {p : Path} (e : (handles d)[h]? = some p) :
+    hpath d h = p := by
+  simp [hpath, List.getD_eq_getElem?_getD, e]
 
-theorem run_inv {w : W} (h : Inv w) (ops : List Op) : Inv (run w ops).1 := by
-  induction ops generalizing w with
-  | nil => exact h
-  | cons op ops ih => exact ih (step_inv h op)
+theorem valid_resolve {d : Desc} {ops : List NOp} (hv : validOps d ops = true) :
+    ValidP (build d) (resolve d ops) := by
+  intro x hx
+  simp only [resolve, List.mem_map] at hx
+  obtain ⟨o, ho, rfl⟩ := hx
+  have := List.all_eq_true.mp hv o ho
+  cases e : (handles d)[o.1]? with
+  | none => simp [e] at this
+  | some p => simp only [e] at this; simpa [hpath_of_get e] using this
 
-theorem step_noclose_fresh {w : W} (hf : Fresh w) {op : Op} (h : op ≠ .close) :
-    Fresh (step w op).1 := by
-  cases op <;> first | exact absurd rfl h | exact hf
+theorem valid_append {d : Desc} {a b : List NOp} (hv : validOps d (a ++ b) = true) :
+    validOps d a = true ∧ validOps d b = true := by
+  simpa [validOps, List.all_append] using hv
 
-/-- **close_once (a)**: with no `Close` call, no resource has been closed. -/
-theorem C19_no_close_no_effect (d : Desc) (ops : List Op) (hn : Op.close ∉ ops) :
-    ∀ c ∈ counts (run (build d) ops).1, c = 0 := by
-  have : ∀ (w : W), Fresh w → Fresh (run w ops).1 := by
-    induction ops with
-    | nil => intro w h; exact h
-    | cons op ops ih =>
-      intro w h
-      have h1 : op ≠ .close := fun e => hn (by simp [e])
-      have h2 : Op.close ∉ ops := fun e => hn (by simp [e])
-      exact ih h2 _ (step_noclose_fresh h h1)
-  exact fresh_counts (this _ (build_fresh d))
+theorem valid_cons {d : Desc} {o : NOp} {b : List NOp} (hv : validOps d (o :: b) = true) :
+    wrapperAt (build d) (hpath d o.1) = true ∧ validOps d b = true := by
+  have h1 : validOps d [o] = true := (valid_append (a := [o]) (b := b) hv).1
+  have := valid_resolve h1 (hpath d o.1, o.2) (by simp [resolve])
+  exact ⟨this, (valid_append (a := [o]) (b := b) hv).2⟩
 
-theorem run_done {w : W} (hg : Guarded w) (hd : Done w) (ops : List Op) :
-    Done (run w ops).1 ∧ Guarded (run w ops).1 := by
-  induction ops generalizing w with
-  | nil => exact ⟨hd, hg⟩
-  | cons op ops ih =>
-    have : (step w op).1 = w := by
-      cases op <;> simp [step, done_close hg hd]
-    simp only [run, this]
-    exact ih hg hd
+theorem hpath_zero (d : Desc) : hpath d 0 = [] := by
+  cases d <;> rfl
 
-theorem run_append (w : W) (a b : List Op) :
-    (run w (a ++ b)).1 = (run (run w a).1 b).1 := by
-  induction a generalizing w with
-  | nil => rfl
-  | cons op a ih => simp [run, ih]
+/-- invariant, guardedness and monotonicity of every reachable state -/
+theorem reach (d : Desc) (hw : d.isWrapper = true) (ops : List NOp) (hv : validOps d ops = true) :
+    Inv (runG true d ops).1 ∧ Guarded (runG true d ops).1 ∧ Le (build d) (runG true d ops).1 :=
+  runP_inv (fresh_inv (build_fresh d)) (build_guarded d hw) _ (valid_resolve hv)
 
-theorem run_append_out (w : W) (a b : List Op) :
-    (run w (a ++ b)).2 = (run w a).2 ++ (run (run w a).1 b).2 := by
-  induction a generalizing w with
-  | nil => rfl
-  | cons op a ih => simp [run, ih]
+theorem deps_ne_nil {t : W} (hg : Guarded t) : deps t ≠ [] := by
+  induction t with
+  | res => exact hg.elim
+  | safe => simp [deps]
+  | deleg i ih => simpa [deps] using ih hg
+  | pair r w ihr ihw => simp [deps, ihr hg.1]
 
-theorem run_noclose_fresh {w : W} (hf : Fresh w) (ops : List Op) (hn : Op.close ∉ ops) :
-    Fresh (run w ops).1 := by
-  induction ops generalizing w with
-  | nil => exact hf
-  | cons op ops ih =>
-    have h1 : op ≠ .close := fun e => hn (by simp [e])
-    have h2 : Op.close ∉ ops := fun e => hn (by simp [e])
-    exact ih (step_noclose_fresh hf h1) h2
+/-! ### the theorems, for the connective `&&` -/
 
-theorem run_noclose_guarded {w : W} (hg : Guarded w) (ops : List Op) (hn : Op.close ∉ ops) :
-    Guarded (run w ops).1 := by
-  induction ops generalizing w with
-  | nil => exact hg
-  | cons op ops ih =>
-    have h1 : op ≠ .close := fun e => hn (by simp [e])
-    have h2 : Op.close ∉ ops := fun e => hn (by simp [e])
-    have : (step w op).1 = w := by cases op <;> first | exact absurd rfl h1 | rfl
-    simp only [run, this]; exact ih hg h2
+theorem never_twice_and (d : Desc) (hw : d.isWrapper = true) (ops : List NOp)
+    (hv : validOps d ops = true) : ∀ c ∈ counts (runG true d ops).1, c ≤ 1 :=
+  inv_counts (reach d hw ops hv).1
 
-/-- **close_once (b)**: as soon as the op sequence contains one `Close` on the outermost
-    wrapper, every underlying resource has received exactly one `Close` — whatever follows
-    (further closes, reads, writes), whatever the nesting depth, whether or not the
-    resource's own `Close` failed. -/
-theorem C19_close_once (d : Desc) (hw : d.isWrapper = true) (pre post : List Op)
-    (hpre : Op.close ∉ pre) :
-    ∀ c ∈ counts (run (build d) (pre ++ .close :: post)).1, c = 1 := by
-  have hg0 := build_guarded d hw
-  have hf1 := run_noclose_fresh (build_fresh d) pre hpre
-  have hg1 := run_noclose_guarded hg0 pre hpre
-  rw [run_append]
-  simp only [run]
-  have hd := fresh_close_done hg1 hf1
-  have hg2 := close_guarded hg1
-  have h := run_done (w := (step (run (build d) pre).1 .close).1) hg2 hd post
-  exact done_counts h.1
+theorem close_closes_subtree_once_and (d : Desc) (hw : d.isWrapper = true) (pre post : List NOp)
+    (h : Nat) (hv : validOps d (pre ++ (h, Op.close) :: post) = true) :
+    ∃ t, sub (runG true d (pre ++ (h, Op.close) :: post)).1 (hpath d h) = some t ∧
+      (∀ c ∈ counts t, c = 1) ∧
+      closeAtG true (runG true d (pre ++ (h, Op.close) :: post)).1 (hpath d h)
+        = ((runG true d (pre ++ (h, Op.close) :: post)).1, true) ∧
+      closedAtG true (runG true d (pre ++ (h, Op.close) :: post)).1 (hpath d h) = some true := by
+  have hv1 := (valid_append hv).1
+  have hv2 := valid_cons (valid_append hv).2
+  obtain ⟨hi1, hg1, hl1⟩ := reach d hw pre hv1
+  -- state after `pre`, then after the Close on `h`
+  have hvh : wrapperAt (runG true d pre).1 (hpath d h) = true := le_wrapperAt hl1 hv2.1
+  obtain ⟨hi2, t2, hs2, hd2⟩ := closeAt_inv hi1 (Or.inr hg1) hvh
+  have hl2 := closeAt_le true (runG true d pre).1 (hpath d h)
+  have hg2 := le_guarded hl2 hg1
+  -- the rest of the run
+  have hvp : ValidP (closeAtG true (runG true d pre).1 (hpath d h)).1 (resolve d post) :=
+    le_validP (le_trans hl1 hl2) (valid_resolve hv2.2)
+  obtain ⟨hi3, hg3, hl3⟩ := runP_inv hi2 hg2 _ hvp
+  have hfin : (runG true d (pre ++ (h, Op.close) :: post)).1
+      = (runPG true (closeAtG true (runG true d pre).1 (hpath d h)).1 (resolve d post)).1 := by
+    simp only [runG, resolve, List.map_append, List.map_cons, runP_append]
+    rfl
+  rw [hfin]
+  obtain ⟨t3, hs3, hl23⟩ := le_sub hl3 hs2
+  have hd3 : Done t3 := done_le hd2 hl23 (sub_inv hi3 hs3)
+  have hn3 : isRes t3 = false := by
+    obtain ⟨t, hs, hn⟩ := wrapperAt_iff.mp (le_wrapperAt (le_trans hl2 hl3) hvh)
+    rw [hs3] at hs; cases hs; exact hn
+  have hgt3 := sub_guarded (Or.inr hg3) hs3 hn3
+  refine ⟨t3, hs3, done_counts hd3, closeAt_fix true hs3 (done_close hgt3 hd3), ?_⟩
+  simp only [closedAtG, hs3]
+  exact done_closedQ hgt3 hd3
 
-/-- pointwise relation between the ops and their outputs -/
-def AllOuts (P : Op → Out → Prop) : List Op → List Out → Prop
-  | [], [] => True
-  | op :: ops, o :: os => P op o ∧ AllOuts P ops os
-  | _, _ => False
+/-- the statement of `C19_closed_implies_closed`, for either connective -/
+def ClosedImpliesClosed (cj : Bool) : Prop :=
+  ∀ (d : Desc), d.isWrapper = true → ∀ (ops : List NOp) (h : Nat),
+    validOps d ((h, Op.closed) :: ops) = true →
+    closedAtG cj (runG cj d ops).1 (hpath d h) = some true →
+    ∃ t, sub (runG cj d ops).1 (hpath d h) = some t ∧ ∀ c ∈ counts t, c = 1
 
-/-- outputs of the ops after the first close -/
-def AfterOk : Op → Out → Prop
-  | .close, o => o = .ok
-  | .closed, o => o = .bool true
-  | _, _ => True
+theorem closed_implies_closed_and : ClosedImpliesClosed true := by
+  intro d hw ops h hv hq
+  have hv' := valid_cons hv
+  obtain ⟨hi, hg, hl⟩ := reach d hw ops hv'.2
+  obtain ⟨t, hs, hn⟩ := wrapperAt_iff.mp (le_wrapperAt hl hv'.1)
+  simp only [closedAtG, hs] at hq
+  have hgt := sub_guarded (Or.inr hg) hs hn
+  exact ⟨t, hs, done_counts (closedQ_true_done (sub_inv hi hs) (Or.inr hgt) (cnt0_of_guarded hgt) hq)⟩
 
-def BeforeOk : Op → Out → Prop
-  | .closed, o => o = .bool false
-  | _, _ => True
+theorem closed_false_before_and (d : Desc) (ops : List NOp) (h : Nat) (t : W)
+    (hs : sub (runG true d ops).1 (hpath d h) = some t) (f : Path) (hf : f ∈ deps t)
+    (hno : ∀ o ∈ ops, o.2 = Op.close → pre (hpath d o.1) (hpath d h ++ f) = false) :
+    closedAtG true (runG true d ops).1 (hpath d h) = some false := by
+  have hno' : ∀ o ∈ resolve d ops, o.2 = Op.close → pre o.1 (hpath d h ++ f) = false := by
+    intro x hx hc
+    simp only [resolve, List.mem_map] at hx
+    obtain ⟨o, ho, rfl⟩ := hx
+    exact hno o ho hc
+  have hfl := runP_flag true (build d) (resolve d ops) (hpath d h ++ f) hno'
+  have e1 : flagAt (runG true d ops).1 (hpath d h ++ f) = flagAt t f := flagAt_append hs f
+  obtain ⟨fl, hfl2⟩ := deps_flag hf
+  have e2 : flagAt (build d) (hpath d h ++ f) = some fl := by
+    rw [← hfl]; exact e1.trans hfl2
+  have : fl = false := fresh_flagAt (build_fresh d) e2
+  subst this
+  simp only [closedAtG, hs]
+  exact closedQ_false_of_flag hf hfl2
 
-theorem outs_done {w : W} (hg : Guarded w) (hd : Done w) (ops : List Op) :
-    AllOuts AfterOk ops (run w ops).2 := by
-  induction ops with
-  | nil => exact trivial
-  | cons op ops ih =>
-    have hs : (step w op).1 = w := by cases op <;> simp [step, done_close hg hd]
-    simp only [run, hs]
-    refine ⟨?_, ih⟩
-    cases op <;> simp [AfterOk, step, done_close hg hd, done_closedQ hg hd]
+/-! ### the property theorems (model of the code as it is) -/
 
-theorem outs_fresh {w : W} (hg : Guarded w) (hf : Fresh w) (ops : List Op) (hn : Op.close ∉ ops) :
-    AllOuts BeforeOk ops (run w ops).2 := by
-  induction ops with
-  | nil => exact trivial
-  | cons op ops ih =>
-    have h1 : op ≠ .close := fun e => hn (by simp [e])
-    have h2 : Op.close ∉ ops := fun e => hn (by simp [e])
-    have hs : (step w op).1 = w := by cases op <;> first | exact absurd rfl h1 | rfl
-    simp only [run, hs]
-    refine ⟨?_, ih h2⟩
-    cases op <;> simp [BeforeOk, step, fresh_closedQ hg hf]
+/-- **never twice**: in every reachable state (after any sequence of ops on any wrapper handles)
+    no resource has received more than one `Close`. -/
+theorem C19_never_twice (d : Desc) (hw : d.isWrapper = true) (ops : List NOp)
+    (hv : validOps d ops = true) : ∀ c ∈ counts (run d ops).1, c ≤ 1 :=
+  never_twice_and d hw ops hv
 
-/-- **repeat_ok + closed_query**: before the first `Close`, `Closed()` answers false; every
-    `Close` after the first returns success and every `Closed()` after it answers true —
-    also when the resource's own close returned an error. -/
-theorem C19_repeat_ok_and_closed_query (d : Desc) (hw : d.isWrapper = true) (pre post : List Op)
-    (hpre : Op.close ∉ pre) :
-    AllOuts BeforeOk pre (run (build d) pre).2 ∧
-    AllOuts AfterOk post
-      (run (step (run (build d) pre).1 .close).1 post).2 := by
-  have hg0 := build_guarded d hw
-  have hf1 := run_noclose_fresh (build_fresh d) pre hpre
-  have hg1 := run_noclose_guarded hg0 pre hpre
-  refine ⟨outs_fresh hg0 (build_fresh d) pre hpre, ?_⟩
-  exact outs_done (close_guarded hg1) (fresh_close_done hg1 hf1) post
+/-- **close closes the subtree once**: after a `Close` on handle `h` — immediately and after
+    any further ops on any handles — every resource under `h` has received exactly one `Close`,
+    a further `Close` on `h` returns success (and changes nothing), and `Closed()` on `h` answers
+    true; whatever the nesting depth, whether or not a resource's own close failed. -/
+theorem C19_close_closes_subtree_once (d : Desc) (hw : d.isWrapper = true) (pre post : List NOp)
+    (h : Nat) (hv : validOps d (pre ++ (h, Op.close) :: post) = true) :
+    ∃ t, sub (run d (pre ++ (h, Op.close) :: post)).1 (hpath d h) = some t ∧
+      (∀ c ∈ counts t, c = 1) ∧
+      closeAt (run d (pre ++ (h, Op.close) :: post)).1 (hpath d h)
+        = ((run d (pre ++ (h, Op.close) :: post)).1, true) ∧
+      closedAt (run d (pre ++ (h, Op.close) :: post)).1 (hpath d h) = some true :=
+  close_closes_subtree_once_and d hw pre post h hv
 
-/-- the trace of the whole sequence is the three parts glued together (so the two statements
-    above speak about the outputs of one run) -/
-theorem C19_trace_split (d : Desc) (pre post : List Op) :
-    (run (build d) (pre ++ .close :: post)).2 =
-      (run (build d) pre).2 ++
-        (step (run (build d) pre).1 .close).2 ::
-          (run (step (run (build d) pre).1 .close).1 post).2 := by
-  rw [run_append_out]; rfl
+/-- **reports closed ⇒ is closed**: whenever `Closed()` on a wrapper handle answers true, every
+    resource under that handle has received exactly one `Close`. -/
+theorem C19_closed_implies_closed : ClosedImpliesClosed Gen.c19PairClosedAnd :=
+  closed_implies_closed_and
 
-/-- the first close reports the resource's error iff some resource fails -/
-def anyFails : Desc → Bool
-  | .res _ _ f => f
-  | .safe _ d => anyFails d
-  | .named _ d => anyFails d
-  | .pair r w => anyFails r || anyFails w
-  | .sim d => anyFails d
-  | .strm d => anyFails d
+/-- with `||` in `ReadWriteCloser.Closed()` the statement is false: a pair over an already-safe
+    reader that the caller closes through its own handle reports closed while its writer's
+    resource has not been closed. -/
+theorem C19_witness_pair_or : ¬ ClosedImpliesClosed false := by
+  intro hc
+  have := hc (.pair (.safe .reader (.res 0 false false)) (.res 1 false false)) rfl
+    [(1, Op.close)] 0 (by decide) (by decide)
+  obtain ⟨t, hs, hall⟩ := this
+  have e : t = (runG false (.pair (.safe .reader (.res 0 false false)) (.res 1 false false))
+      [(1, Op.close)]).1 := by
+    have h2 : sub (runG false (.pair (.safe .reader (.res 0 false false)) (.res 1 false false))
+      [(1, Op.close)]).1 [] = some t := hs
+    rw [sub_nil] at h2; exact (Option.some.inj h2).symm
+  subst e
+  exact absurd (hall 0 (by decide)) (by decide)
 
-/-! non-vacuity: a depth-4 composition with a failing resource meets the hypotheses, and the
-    conclusions are what the real code shows. -/
+/-- **false before**: `Closed()` on handle `h` answers false as long as, for at least one of the
+    Safe* objects `f` whose flags make up `h`'s status (`deps`: the object itself, the embedded
+    Safe* object of a Named*/Simulated/StreamWrapped wrapper, each of the two halves of a pair), no
+    `Close` has been issued on that object or on a handle enclosing it (`pre q p`: `q` is `p` or
+    encloses it).  In particular: no `Close` on `h`, on a handle enclosing `h`, and — for a pair —
+    on at most one of its halves. -/
+theorem C19_closed_false_before (d : Desc) (ops : List NOp) (h : Nat) (t : W)
+    (hs : sub (run d ops).1 (hpath d h) = some t) (f : Path) (hf : f ∈ deps t)
+    (hno : ∀ o ∈ ops, o.2 = Op.close → pre (hpath d o.1) (hpath d h ++ f) = false) :
+    closedAt (run d ops).1 (hpath d h) = some false :=
+  closed_false_before_and d ops h t hs f hf hno
+
+/-- every wrapper object has at least one such Safe* object (so the previous theorem applies) -/
+theorem C19_status_objects_exist (d : Desc) (hw : d.isWrapper = true) (ops : List NOp) (h : Nat)
+    (hv : validOps d ((h, Op.closed) :: ops) = true) :
+    ∃ t, sub (run d ops).1 (hpath d h) = some t ∧ deps t ≠ [] := by
+  have hv' := valid_cons hv
+  obtain ⟨_, hg, hl⟩ := reach d hw ops hv'.2
+  obtain ⟨t, hs, hn⟩ := wrapperAt_iff.mp (le_wrapperAt hl hv'.1)
+  exact ⟨t, hs, deps_ne_nil (sub_guarded (Or.inr hg) hs hn)⟩
+
+/-- with no `Close` at all, no resource has been closed -/
+theorem C19_no_close_no_effect (d : Desc) (ops : List NOp) (hn : ∀ o ∈ ops, o.2 ≠ Op.close) :
+    ∀ c ∈ counts (run d ops).1, c = 0 := by
+  have hn' : ∀ o ∈ resolve d ops, o.2 ≠ Op.close := by
+    intro x hx
+    simp only [resolve, List.mem_map] at hx
+    obtain ⟨o, ho, rfl⟩ := hx
+    exact hn o ho
+  exact fresh_counts (runP_noclose_fresh true (build_fresh d) _ hn')
+
+/-! ### corollaries for the outermost wrapper (handle 0): the former statements -/
+
+/-- as soon as the sequence contains a `Close` on the outermost wrapper, every resource of the
+    composition has received exactly one `Close`, whatever else was or is done on any handle;
+    repeats return success and `Closed()` answers true -/
+theorem C19_outermost_close_once (d : Desc) (hw : d.isWrapper = true) (pre post : List NOp)
+    (hv : validOps d (pre ++ (0, Op.close) :: post) = true) :
+    (∀ c ∈ counts (run d (pre ++ (0, Op.close) :: post)).1, c = 1) ∧
+    close (run d (pre ++ (0, Op.close) :: post)).1 = ((run d (pre ++ (0, Op.close) :: post)).1, true) ∧
+    closedQ (run d (pre ++ (0, Op.close) :: post)).1 = some true := by
+  obtain ⟨t, hs, h1, h2, h3⟩ := close_closes_subtree_once_and d hw pre post 0 hv
+  rw [hpath_zero] at hs h2 h3
+  rw [sub_nil] at hs
+  cases hs
+  refine ⟨h1, ?_, ?_⟩
+  · have : closeAtG true (runG true d (pre ++ (0, Op.close) :: post)).1 []
+        = closeG true (runG true d (pre ++ (0, Op.close) :: post)).1 := by
+      cases (runG true d (pre ++ (0, Op.close) :: post)).1 <;> rfl
+    rw [this] at h2; exact h2
+  · have h3' : closedQG true (runG true d (pre ++ (0, Op.close) :: post)).1 = some true := by
+      simpa [closedAtG, sub_nil] using h3
+    exact h3'
+
+/-- before any `Close` (on any handle) the outermost wrapper's `Closed()` answers false -/
+theorem C19_outermost_closed_false_before (d : Desc) (hw : d.isWrapper = true) (ops : List NOp)
+    (hv : validOps d ops = true) (hn : ∀ o ∈ ops, o.2 ≠ Op.close) :
+    closedQ (run d ops).1 = some false := by
+  obtain ⟨_, hg, _⟩ := reach d hw ops hv
+  obtain ⟨f, hf⟩ := List.exists_mem_of_ne_nil _ (deps_ne_nil hg)
+  have := closed_false_before_and d ops 0 (runG true d ops).1
+    (by rw [hpath_zero]; exact sub_nil _) f hf (fun o ho hc => absurd hc (hn o ho))
+  rw [hpath_zero] at this
+  have this' : closedQG true (runG true d ops).1 = some false := by
+    simpa [closedAtG, sub_nil] using this
+  exact this'
+
+/-- the outputs of a run are the per-op results of `stepAt` on the states passed through (so the
+    statements above, about `closeAt`/`closedAt` of reachable states, speak about what a caller sees) -/
+theorem C19_trace_split (d : Desc) (pre post : List NOp) (o : NOp) :
+    (run d (pre ++ o :: post)).2 =
+      (run d pre).2 ++
+        (stepAtG Gen.c19PairClosedAnd (run d pre).1 (hpath d o.1) o.2).2 ::
+          (runPG Gen.c19PairClosedAnd
+            (stepAtG Gen.c19PairClosedAnd (run d pre).1 (hpath d o.1) o.2).1 (resolve d post)).2 := by
+  simp only [run, runG, resolve, List.map_append, List.map_cons, runP_append_out]
+  rfl
+
+/-! ### non-vacuity -/
+
+/-- a depth-4 composition with a failing resource -/
 def exD : Desc :=
   .named .conn (.sim (.pair (.named .reader (.res 0 true true)) (.safe .writer (.safe .writer (.res 1 false false)))))
 
 example : exD.isWrapper = true := rfl
-example : (run (build exD) [.closed, .read, .close, .close, .closed, .write, .close]).2
-    = [.bool false, .unit, .err, .ok, .bool true, .unit, .ok] := by decide
-example : counts (run (build exD) [.closed, .read, .close, .close, .closed, .write, .close]).1 = [1, 1] := by
+-- handles: 0 Nc, 1 I, 2 P, 3 Nr, 4 R0, 5 Sw, 6 Sw (same object as 5), 7 R1
+example : handles exD = [[], [false, false], [false, false, false, false],
+    [false, false, false, false, false, false], [false, false, false, false, false, false, false, false],
+    [false, false, false, false, true], [false, false, false, false, true],
+    [false, false, false, false, true, false]] := by decide
+example : validOps exD [(0, .closed), (5, .close), (6, .closed), (2, .closed), (3, .close), (2, .closed),
+    (1, .closed), (0, .close), (0, .closed), (3, .close)] = true := by decide
+example : validOps exD [(4, .close)] = false := by decide     -- bare resource: not a wrapper handle
+example : (run exD [(0, .closed), (5, .close), (6, .closed), (2, .closed), (3, .close), (2, .closed),
+    (1, .closed), (0, .close), (0, .closed), (3, .close)]).2
+    = [.bool false, .ok, .bool true, .bool false, .err, .bool false, .bool false, .ok, .bool true, .ok] := by
   decide
+example : counts (run exD [(5, .close), (3, .close), (0, .close), (3, .close)]).1 = [1, 1] := by decide
+example : counts (run exD [(0, .closed), (0, .read), (0, .close), (0, .close), (0, .closed)]).1 = [1, 1] := by
+  decide
+
+/-- the seeded scenario: NamedStream over a pair whose reader is an already-safe SafeReader
+    (handle 2, shared with the pair) that the caller closes through its own handle; then the pair
+    and the outer wrapper are queried and closed.  Handles: 0 Ns, 1 P, 2 Sr, 3 R0, 4 R1. -/
+def exSeed : Desc := .named .stream (.pair (.safe .reader (.res 0 false false)) (.res 1 false false))
+
+example : handles exSeed = [[], [false, false], [false, false, false], [false, false, false, false],
+    [false, false, true, false]] := by decide
+example : validOps exSeed [(2, .close), (1, .closed), (0, .closed), (0, .close), (0, .closed), (1, .closed)] = true := by
+  decide
+-- the code as it is (`&&`): pair and outer wrapper answer false, the outer Close closes the writer
+example : (run exSeed [(2, .close), (1, .closed), (0, .closed), (0, .close), (0, .closed), (1, .closed)]).2
+    = [.ok, .bool false, .bool false, .ok, .bool true, .bool true] := by decide
+example : counts (run exSeed [(2, .close), (1, .closed), (0, .closed), (0, .close)]).1 = [1, 1] := by decide
+-- the `||` variant: pair reports closed at once, the outer Close skips it, the writer stays open
+example : (runG false exSeed [(2, .close), (1, .closed), (0, .closed), (0, .close), (0, .closed), (1, .closed)]).2
+    = [.ok, .bool true, .bool false, .ok, .bool true, .bool true] := by decide
+example : counts (runG false exSeed [(2, .close), (1, .closed), (0, .closed), (0, .close), (0, .close)]).1 = [1, 0] := by
+  decide
+-- hypotheses of `C19_closed_false_before` are met in the seeded scenario: the pair's writer half
+-- (`[true]` below the pair) is touched by no Close
+example : [true] ∈ deps ((sub (run exSeed [(2, .close)]).1 (hpath exSeed 1)).getD (.deleg (.res 0 false false 0))) := by
+  decide
+example : ∀ o ∈ [((2 : Nat), Op.close)], o.2 = Op.close →
+    pre (hpath exSeed o.1) (hpath exSeed 1 ++ [true]) = false := by decide
 
 /-- Observation outside the property (the same *object* on both sides of a pair is closed twice):
     kept as a witness so the side condition "distinct resources" is visible. -/
-example : counts (run (build (.pair (.res 0 false false) (.res 0 false false))) [.close]).1 = [1, 1] := by
+example : counts (run (.pair (.res 0 false false) (.res 0 false false)) [(0, .close)]).1 = [1, 1] := by
   decide
 
 end SA.Wrappers
 
+#print axioms SA.Wrappers.C19_never_twice
+#print axioms SA.Wrappers.C19_close_closes_subtree_once
+#print axioms SA.Wrappers.C19_closed_implies_closed
+#print axioms SA.Wrappers.C19_witness_pair_or
+#print axioms SA.Wrappers.C19_closed_false_before
+#print axioms SA.Wrappers.C19_status_objects_exist
 #print axioms SA.Wrappers.C19_no_close_no_effect
-#print axioms SA.Wrappers.C19_close_once
-#print axioms SA.Wrappers.C19_repeat_ok_and_closed_query
+#print axioms SA.Wrappers.C19_outermost_close_once
+#print axioms SA.Wrappers.C19_outermost_closed_false_before
 #print axioms SA.Wrappers.C19_trace_split
